@@ -772,6 +772,35 @@ inline std::vector<std::string> alpha(std::initializer_list<char const *> own)
   return a;
 }
 
+// second pass per shape: the shape's own flag/option spellings and tokens that properly extend them or change their
+// dashes ("--flagx", "-fx", "-flag", "--f", "--fla"): all of these are foreign flags for the documented semantics
+inline std::vector<std::string> extended_names(std::vector<std::string> const &alphabet)
+{
+  std::vector<std::string> own, out;
+  for (auto const &t : alphabet)
+    if (t.size() >= 2 && t[0] == '-' && t != "--" && t != "--zz" && t != "-1")
+      own.push_back(t);
+  auto add = [&out](std::string const &t) {
+    if (std::find(out.begin(), out.end(), t) == out.end())
+      out.push_back(t);
+  };
+  for (auto const &t : own)
+  {
+    add(t);
+    add(t + "x");
+    if (t.size() > 3 && t[1] == '-')
+    {
+      add(t.substr(1));               // --flag -> -flag
+      add(t.substr(0, t.size() - 1)); // --flag -> --fla
+    }
+    else if (t.size() == 2)
+      add("-" + t); // -f -> --f
+  }
+  add("7");
+  add("x");
+  return out;
+}
+
 FCPPT_RECORD_MAKE_LABEL(la);
 FCPPT_RECORD_MAKE_LABEL(lb);
 FCPPT_RECORD_MAKE_LABEL(lc);
